@@ -164,6 +164,73 @@ class SimRLock(SimLock):
             SimLock.release(self)
 
 
+class SimCondition(object):
+    """Cooperative replacement for threading.Condition on a SimLock / SimRLock."""
+
+    def __init__(self, lock=None):
+        self.lock = lock if lock is not None else SimRLock(None, 'cond')
+        self.waiters = []
+        self.name = 'cond(%s)' % getattr(self.lock, 'name', '?')
+        self.owner = None        # for deadlock reports
+
+    def acquire(self, *a, **kw):
+        return self.lock.acquire(*a, **kw)
+
+    def release(self):
+        return self.lock.release()
+
+    def __enter__(self):
+        self.lock.acquire()
+        return self
+
+    def __exit__(self, *a):
+        self.lock.release()
+        return False
+
+    def wait(self, timeout=None):
+        sched = self.lock.sched
+        th = sched.current() if sched is not None else None
+        if th is None:
+            if timeout is None:
+                raise SimHang('Condition.wait() without timeout in a single-threaded run can never return')
+            return False
+        th.cond_notified = False
+        self.waiters.append(th)
+        self.lock.release()
+        if not th.cond_notified:
+            if timeout is None:
+                th.state = BLOCKED
+                th.waiting_for = self
+            else:
+                th.state = WAIT_IO
+                th.wake_at = sched.clock.now + max(0.0, timeout)
+            sched.dispatch(th)
+            th.wake_at = None
+            th.waiting_for = None
+        if th in self.waiters:
+            self.waiters.remove(th)
+        self.lock.acquire()
+        return th.cond_notified
+
+    def wait_for(self, predicate, timeout=None):
+        r = predicate()
+        while not r:
+            if not self.wait(timeout):
+                return predicate()
+            r = predicate()
+        return r
+
+    def notify(self, n=1):
+        for th in list(self.waiters)[:n]:
+            self.waiters.remove(th)
+            th.cond_notified = True
+            if th.state in (BLOCKED, WAIT_IO):
+                th.state = RUNNABLE
+
+    def notify_all(self):
+        self.notify(len(self.waiters))
+
+
 class Sched(object):
     def __init__(self, tape, clock, cfg, log):
         self.tape = tape
